@@ -29,6 +29,9 @@ def profile():
 @st.composite
 def cases(draw, ncalls=3, p=None):
     prog = draw(S.programs(p or profile()))
+    # a third of the programs carry abi_rename attributes at module / type / impl / method level: the driver calls the symbols the
+    # naming model derives, the link step and the call log decide whether header, macro and model agree
+    prog["placed"] = draw(S.decorate(prog, abi=True, rename=False, disable=False, density=5)) if draw(st.integers(0, 2)) == 0 else []
     e2e.add_support_methods(prog)
     plan = e2e.plan_calls(draw, prog, ncalls)
     return prog, plan
@@ -166,7 +169,7 @@ def worker(widx, seed, params):
         if res["status"] != "ran" and not fails:
             acc.labels["not-accepted:" + res["status"]] += 1
             return
-        feats = S.features(prog)
+        feats = list(S.features(prog)) + ["placed:" + x for x in set(prog.get("placed", []))]
         for f_ in feats:
             acc.labels[f_] += 1
         for p_ in plan:
